@@ -17,7 +17,7 @@ pub fn start() -> impl Strategy<Value = Start> {
 }
 
 pub fn ring_cfg(max_sq_log2: u8) -> impl Strategy<Value = RingCfg> {
-    (0..=max_sq_log2, proptest::option::of(0u8..=6), start(), start(), any::<bool>(), proptest::bool::weighted(0.2), proptest::bool::weighted(0.15), proptest::bool::weighted(0.25)).prop_map(|(sq_log2, cq_log2, sq_start, cq_start, alt_layout, defer_taskrun, sqpoll, direct)| RingCfg {
+    (0..=max_sq_log2, proptest::option::of(0u8..=6), start(), start(), any::<bool>(), proptest::bool::weighted(0.2), proptest::bool::weighted(0.15), proptest::bool::weighted(0.25)).prop_map(move |(sq_log2, cq_log2, sq_start, cq_start, alt_layout, defer_taskrun, sqpoll, direct)| RingCfg {
         sq_log2,
         cq_log2,
         sq_start,
@@ -30,6 +30,8 @@ pub fn ring_cfg(max_sq_log2: u8) -> impl Strategy<Value = RingCfg> {
         direct_slots: if direct && !sqpoll { 4 } else { 0 },
         alt_layout,
         defer_taskrun: defer_taskrun && !sqpoll,
+        // One history in forty on the largest ring there is.
+        max_size: cq_log2 == Some(6) && alt_layout && max_sq_log2 >= 2,
     })
 }
 
@@ -44,6 +46,7 @@ pub fn ring_cfg_wide() -> impl Strategy<Value = RingCfg> {
         direct_slots: if direct { 4 } else { 0 },
         alt_layout,
         defer_taskrun,
+        max_size: false,
     })
 }
 
